@@ -245,6 +245,30 @@ class Kernel:
             if lifted is not None:
                 return lifted
             return self.opaque(e)
+        if name in ('ArrayBase::mapv', 'ArrayBase::map', 'ArrayBase::mapv_into') and len(args) == 2 and args[1][0] == 'closure':
+            # element-wise map with a linear closure: |c| -c  /  |c| c * k  /  |c| k * c  /  |c| c   (k a literal)
+            cb = self.F.closure(args[1][1])
+            rets = [strip_sites(r) for _, r in Resolver(cb).return_expr()] if cb is not None else []
+            if len(rets) == 1:
+                prm = ('param', cb.arg_names()[-1])
+                r = rets[0]
+                a = ev(args[0])
+                scale = None
+                if r == prm:
+                    scale = 1
+                elif (r[0] == 'un' and r[1] == 'Neg' and r[2] == prm) or (r[0] == 'call' and r[1] == 'Neg::neg' and r[2] == (prm,)):
+                    scale = -1
+                elif r[0] == 'bin' and r[1] == 'Mul' and ((r[2] == prm and r[3][0] == 'const') or (r[3] == prm and r[2][0] == 'const')):
+                    kv = r[3][1] if r[2] == prm else r[2][1]
+                    if isinstance(kv, (int, float)) and not isinstance(kv, bool):
+                        scale = kv
+                if scale is not None:
+                    if scale == 1:
+                        return a
+                    if scale == -1:
+                        return neg(a)
+                    return a.scale(scale) if isinstance(a, Poly) else a.map(lambda p_: p_.scale(scale))
+            return self.opaque(e)
         if name == 'AffFuncBase::from_mats':
             return Aff(ev(args[0]), ev(args[1]))
         if name in ('ArrayBase::insert_axis', 'ArrayBase::into_shape', 'ArrayBase::into_dyn', 'ArrayBase::into_dimensionality'):
